@@ -70,10 +70,77 @@ fn gen_value(rng: &mut Rng, depth: u32) -> Value {
     }
 }
 
+/// The scalar of the Coq model (Model/MsgPack.v) for a model value; None for records.
+fn coq_scalar(v: &Value) -> Option<String> {
+    let int = |n: i128| if n >= 0 { format!("(MPos {})", n) } else { format!("(MNeg {})", -n) };
+    Some(match v {
+        Value::Extant => "MNil".to_string(),
+        Value::BooleanValue(b) => format!("(MBool {})", b),
+        Value::Int32Value(n) => int(*n as i128),
+        Value::Int64Value(n) => int(*n as i128),
+        Value::UInt32Value(n) => int(*n as i128),
+        Value::UInt64Value(n) => int(*n as i128),
+        Value::Float64Value(x) => format!("(MF64 {})", x.to_bits()),
+        Value::BigInt(n) => format!("(MBigInt {} {})", n.sign() == num_bigint::Sign::Minus, n.magnitude()),
+        Value::BigUint(n) => format!("(MBigUint {})", n),
+        Value::Text(t) => format!("(MStr {})", coq_bytes(t.as_str().as_bytes())),
+        Value::Data(b) => format!("(MBin {})", coq_bytes(b.as_ref())),
+        Value::Record(..) => return None,
+    })
+}
+
+fn gen_scalar(rng: &mut Rng) -> Value {
+    match rng.below(12) {
+        0 => Value::Extant,
+        1 => Value::BooleanValue(rng.below(2) == 0),
+        2 => {
+            // around every boundary of the integer formats
+            let b = *rng.pick(&[0i128, 127, 128, 255, 256, 65535, 65536, (1 << 31) - 1, 1 << 31, (1 << 32) - 1, 1 << 32, (1 << 63) - 1]);
+            let n = b + rng.below(5) as i128 - 2;
+            if n < 0 {
+                Value::Int64Value(n as i64)
+            } else if rng.below(2) == 0 || n > i64::MAX as i128 {
+                Value::UInt64Value(n as u64)
+            } else {
+                Value::Int64Value(n as i64)
+            }
+        }
+        3 => {
+            let b = *rng.pick(&[1i128, 32, 33, 128, 129, 32768, 32769, 1 << 31, (1 << 31) + 1, 1 << 63]);
+            let n = (b + rng.below(3) as i128 - 1).clamp(1, 1 << 63);
+            Value::Int64Value((-n) as i64)
+        }
+        4 => Value::UInt64Value(u64::MAX - rng.below(3)),
+        5 => Value::Int32Value(rng.next_u64() as i32),
+        6 => Value::Float64Value(f64::from_bits(*rng.pick(&[0u64, 1 << 63, 0x3ff0000000000000, 0x7ff0000000000000, 0xfff0000000000000, 1, 0x7fefffffffffffff, 0x3fb999999999999a]))),
+        7 => {
+            let mag = BigInt::from(rng.next_u64()) * BigInt::from(*rng.pick(&[0u64, 1, 255, 256, 1 << 40, u64::MAX])) * BigInt::from(*rng.pick(&[1u64, 1 << 63]));
+            Value::BigInt(if rng.below(2) == 0 { -mag } else { mag })
+        }
+        8 => Value::BigUint(BigUint::from(rng.next_u64() >> *rng.pick(&[0u32, 8, 56, 63, 64u32.min(63)])) * BigUint::from(*rng.pick(&[0u64, 1, 1 << 40, u64::MAX]))),
+        9 => {
+            let n = *rng.pick(&[0usize, 1, 30, 31, 32, 33, 254, 255, 256, 257, 300]);
+            Value::Text(Text::new(&(0..n).map(|i| if i % 7 == 3 { 'x' } else { 'a' }).collect::<String>()))
+        }
+        10 => Value::Text(Text::new(*rng.pick(&["é", "名前", "a\u{1F600}b", "\u{0}"]))),
+        _ => {
+            let n = *rng.pick(&[0usize, 1, 3, 254, 255, 256, 257]);
+            Value::Data(Blob::from_vec((0..n).map(|_| rng.below(256) as u8).collect()))
+        }
+    }
+}
+
 fn main() {
     let args = parse_args();
     silence_panics();
     let mut rng = Rng::new(args.seed ^ 0xc16);
+    let mut w = CaseWriter::new(
+        "From SwimV Require Import Lib.Hex Model.MsgPack.\nOpen Scope N_scope.",
+        "pcase",
+        &["mp_corr_bad"],
+        args.shards,
+    );
+    let mut nontrivial = 0u64;
     let mut kinds: BTreeMap<String, u64> = BTreeMap::new();
     let mut failures: Vec<String> = vec![];
     let mut evals = 0u64;
@@ -159,6 +226,65 @@ fn main() {
             Err(m) => failures.push(format!("value {:?}: MessagePack round trip panicked: {}", v, m)),
         }
     }
+    // scalars against the model: the bytes written, and what is read from them, their prefixes and mutations
+    let mut dec_case = |w: &mut CaseWriter, kinds: &mut BTreeMap<String, u64>, failures: &mut Vec<String>, bytes: &[u8], kind: &str| {
+        // maps (records) and f32 are outside the model; invalid UTF-8 is not a text
+        if let Some(&m) = bytes.first() {
+            if (0x80..=0x8f).contains(&m) || m == 0xde || m == 0xdf || m == 0xca {
+                return;
+            }
+        }
+        let r = catch(std::panic::AssertUnwindSafe(|| {
+            let mut b = bytes::Bytes::from(bytes.to_vec());
+            read_from_msg_pack::<Value, _>(&mut b)
+        }));
+        let (status, val) = match r {
+            Ok(Ok(v)) => match coq_scalar(&v) {
+                Some(c) => (0, Some(c)),
+                None => return,
+            },
+            Ok(Err(swimos_msgpack::MsgPackReadError::Incomplete)) => (1, None),
+            Ok(Err(swimos_msgpack::MsgPackReadError::StringDecode(_))) => return,
+            Ok(Err(_)) => (2, None),
+            Err(m) => {
+                failures.push(format!("reading the bytes {:02x?} as MessagePack panicked: {}", bytes, m));
+                return;
+            }
+        };
+        *kinds.entry(format!("model_dec_{}_{}", kind, status)).or_default() += 1;
+        w.push(format!("CaseDec {} {} {}", coq_bytes(bytes), status, coq_option(val.clone())), format!("read {} -> status {} {:?}", hex_of(bytes), status, val));
+    };
+    for _ in 0..args.cases * 2 {
+        let v = gen_scalar(&mut rng);
+        let term = coq_scalar(&v).unwrap();
+        let bytes = match to_msgpack(&v) {
+            Ok(b) => b,
+            Err(e) => {
+                failures.push(format!("scalar {:?}: writing as MessagePack failed: {}", v, e));
+                continue;
+            }
+        };
+        evals += 1;
+        nontrivial += 1;
+        *kinds.entry("model_enc".into()).or_default() += 1;
+        w.push(format!("CaseEnc {} {}", term, coq_bytes(&bytes)), format!("write {:?} -> {}", v, hex_of(&bytes)));
+        dec_case(&mut w, &mut kinds, &mut failures, &bytes, "whole");
+        let mut followed = bytes.clone();
+        followed.extend_from_slice(&[0x01, 0xc0]);
+        dec_case(&mut w, &mut kinds, &mut failures, &followed, "followed");
+        if bytes.len() > 1 {
+            let cut = 1 + rng.usize_below(bytes.len() - 1);
+            dec_case(&mut w, &mut kinds, &mut failures, &bytes[..cut], "prefix");
+            dec_case(&mut w, &mut kinds, &mut failures, &bytes[..bytes.len() - 1], "prefix");
+        }
+        let mut m = bytes.clone();
+        let i = rng.usize_below(m.len().min(6));
+        m[i] = if rng.below(2) == 0 { m[i].wrapping_add(*rng.pick(&[1u8, 0xff, 0x10])) } else { *rng.pick(&[0xc1u8, 0xc4, 0xc7, 0xc8, 0xc9, 0xd4, 0xd5, 0xd6, 0xd7, 0xd8, 0xd9, 0xda, 0xdb, 0x90, 0xdc, 0xdd, 0xa5, 0x00, 0x01, 0x02, 0xff]) };
+        dec_case(&mut w, &mut kinds, &mut failures, &m, "mutated");
+    }
+    w.finish(&args.out, "cases").unwrap();
+    evals += w.len() as u64;
+
     // random bytes: no panic
     for _ in 0..args.cases {
         let n = rng.range(0, 24) as usize;
@@ -179,8 +305,8 @@ fn main() {
     std::fs::write(std::path::Path::new(&args.out).join("failures.txt"), failures.join("\n")).unwrap();
     let meta = J::obj(vec![
         ("evaluations", J::I(evals as i128)),
-        ("distinct_nontrivial", J::I(0)),
-        ("rule", J::s("exploration")),
+        ("distinct_nontrivial", J::I(nontrivial as i128)),
+        ("rule", J::s("scalars against the model: MsgPackInterpreter's bytes for generated scalar values (integers around every format boundary of both signs, extreme floats, big integers of both signs and up to 24 bytes, texts and blobs around the 31/255 length boundaries), read_from_msg_pack::<Value> on those bytes, followed by more input, cut short and mutated (markers, lengths, extension types); oracles on the real code: typed values (integers, floats, texts, big integers, vectors, maps, options, blobs) through the model, MessagePack and Recon, generated model values with records (array-like, map-like, mixed; up to 16 attributes) through MessagePack, every prefix rejected, random bytes never panic")),
         ("structures", J::counts(&kinds)),
         ("samples", J::A(vec![])),
         ("direct_failures", J::A(failures.iter().take(40).map(|f| J::s(f.chars().take(500).collect::<String>())).collect())),
